@@ -71,7 +71,7 @@ Qed.
 
 Theorem direction_sound prefix stable premises defs lemmas conclusions dec taken fs :
   all_role PAxiom stable -> all_role PAxiom premises -> all_role PConjecture conclusions ->
-  def_chain taken (map an_formula defs) ->
+  conservative_over taken (map an_formula defs) ->
   Forall (fun g => lemma_sound g /\ lemma_roles g) lemmas ->
   (forall a, In a (stable ++ premises ++ conclusions) ->
      forall r, In r (predicates (pf_formula a)) -> In r taken) ->
@@ -84,7 +84,7 @@ Theorem direction_sound prefix stable premises defs lemmas conclusions dec taken
                tvalid FI M (map pf_formula conclusions).
 Proof.
   intros Hrs Hrp Hrc Hchain Hls Hvoc Hclash Hfs Hdfs Hlfs Hnr FI M Hs Hp.
-  destruct (defs_conservative taken _ Hchain FI M) as [M' [Hag Hdefs]].
+  destruct (Hchain FI M) as [M' [Hag Hdefs]].
   specialize (Hnr FI M'). unfold direction_problems in Hnr.
   apply not_refutes_some_app in Hnr. destruct Hnr as [Hno Hnf].
   (* truth of the task's own formulas is the same in M and M' *)
@@ -126,4 +126,78 @@ Proof.
       + intros [_ Hc]. exact (Hnc Hc). }
   intros f Hf. apply in_map_iff in Hf. destruct Hf as [a [<- Ha]].
   apply Hsame; [apply in_app_iff; right; apply in_app_iff; auto|]. apply Hc'. apply in_map, Ha.
+Qed.
+
+(* ================= positions in the emitted sequence (audit A18 c) ================= *)
+(* C13_order characterises the SET of outline problems; these theorems tie it to the actual LIST
+   [direction_problems] emits: the problem of the j-th conjecture of the k-th lemma is the element
+   number (conjectures of the lemmas before k) + j, its axioms are the initial axioms (stable
+   premises, premises of the direction, the direction's definitions) followed by the consequences of
+   the lemmas before k, and the final problems come after all of them. *)
+Definition conj_count (ls : list general_lemma) : nat :=
+  fold_right (fun g acc => List.length (gl_conjectures g) + acc) 0 ls.
+
+Lemma lemma_problems_length prefix i ax : forall cs j, List.length (lemma_problems prefix i ax j cs) = List.length cs.
+Proof. induction cs as [|c cs IH]; intros j; cbn; [reflexivity|]. rewrite IH. reflexivity. Qed.
+Lemma lemma_problems_nth prefix i ax : forall cs j k c, nth_error cs k = Some c ->
+  nth_error (lemma_problems prefix i ax j cs) k = Some (outline_problem (outline_name prefix i (j + N.of_nat k)) ax c).
+Proof.
+  induction cs as [|c0 cs IH]; intros j k c Hk; [destruct k; discriminate|].
+  destruct k as [|k]; cbn in *.
+  - injection Hk as <-. unfold outline_name. rewrite N.add_0_r. reflexivity.
+  - rewrite (IH _ _ _ Hk). do 3 f_equal. lia.
+Qed.
+Lemma outline_problems_length prefix : forall ls i ax,
+  List.length (outline_problems prefix i ax ls) = conj_count ls.
+Proof.
+  induction ls as [|g ls IH]; intros i ax; cbn [outline_problems conj_count fold_right]; [reflexivity|].
+  rewrite app_length, lemma_problems_length, IH. reflexivity.
+Qed.
+Theorem outline_problems_nth prefix : forall ls i ax k g j c,
+  nth_error ls k = Some g -> nth_error (gl_conjectures g) j = Some c ->
+  nth_error (outline_problems prefix i ax ls) (conj_count (firstn k ls) + j)
+  = Some (outline_problem (outline_name prefix (i + N.of_nat k) (N.of_nat j))
+            (ax ++ flat_map gl_consequences (firstn k ls)) c).
+Proof.
+  induction ls as [|g0 ls IH]; intros i ax k g j c Hk Hj; [destruct k; discriminate|].
+  cbn [outline_problems]. destruct k as [|k]; cbn [nth_error firstn conj_count fold_right flat_map] in *.
+  - injection Hk as <-. rewrite app_nil_r, N.add_0_r. cbn [plus].
+    rewrite nth_error_app1 by (rewrite lemma_problems_length; apply nth_error_Some; congruence).
+    rewrite (lemma_problems_nth prefix i ax _ 0%N j c Hj). reflexivity.
+  - rewrite nth_error_app2 by (rewrite lemma_problems_length; lia).
+    rewrite lemma_problems_length.
+    match goal with |- nth_error _ ?n = _ => replace n with (conj_count (firstn k ls) + j) by (unfold conj_count; lia) end.
+    rewrite (IH (N.succ i) (ax ++ gl_consequences g0) k g j c Hk Hj).
+    rewrite <- app_assoc. do 3 f_equal. lia.
+Qed.
+
+Lemma skipn_app_len {A} (l l' : list A) : skipn (List.length l) (l ++ l') = l'.
+Proof. induction l; cbn; auto. Qed.
+Lemma firstn_app_len {A} (l l' : list A) : firstn (List.length l) (l ++ l') = l.
+Proof. induction l; cbn; [reflexivity|f_equal; auto]. Qed.
+
+Definition direction_axioms (stable premises : list pformula) (defs : list aformula_annot) : list pformula :=
+  stable ++ premises ++ map (fun d => into_problem_formula d PAxiom) defs.
+
+(* the emitted list of a direction, position by position *)
+Theorem direction_problems_nth prefix stable premises defs lemmas conclusions dec k g j c :
+  nth_error lemmas k = Some g -> nth_error (gl_conjectures g) j = Some c ->
+  nth_error (direction_problems prefix stable premises defs lemmas conclusions dec)
+            (conj_count (firstn k lemmas) + j)
+  = Some (outline_problem (outline_name prefix (N.of_nat k) (N.of_nat j))
+            (direction_axioms stable premises defs ++ flat_map gl_consequences (firstn k lemmas)) c).
+Proof.
+  intros Hk Hj. unfold direction_problems, direction_axioms.
+  pose proof (outline_problems_nth prefix lemmas 0 (stable ++ premises ++ map (fun d => into_problem_formula d PAxiom) defs) k g j c Hk Hj) as H.
+  rewrite nth_error_app1; [exact H|]. apply nth_error_Some. rewrite H. discriminate.
+Qed.
+Theorem direction_problems_final prefix stable premises defs lemmas conclusions dec :
+  skipn (conj_count lemmas) (direction_problems prefix stable premises defs lemmas conclusions dec)
+  = final_problem (prefix ++ "_problem")%string stable premises lemmas conclusions dec /\
+  firstn (conj_count lemmas) (direction_problems prefix stable premises defs lemmas conclusions dec)
+  = outline_problems prefix 0 (direction_axioms stable premises defs) lemmas.
+Proof.
+  unfold direction_problems, direction_axioms.
+  rewrite <- (outline_problems_length prefix lemmas 0 (stable ++ premises ++ map (fun d => into_problem_formula d PAxiom) defs)).
+  split; [apply skipn_app_len|apply firstn_app_len].
 Qed.
